@@ -7,12 +7,13 @@ SPEC = dict(
          "(2) HistoricalLookup and the host calls historical_lookup / lookup (register 7, written window) on random service states; "
          "(3) ValidatePreimageExtrinsics then ProcessPreimageExtrinsics (through the blockchain singleton) and Provide on random states whose "
          "(service, blob) entries are solicited / provided / forgotten / re-available / solicited only in raw key-values / raw non-empty / "
-         "absent / wrong length / over-long record / off-invariant, with extrinsics sorted, duplicated, adjacent-swapped, reversed, shuffled, "
+         "raw odd value / absent / wrong length / over-long record / off-invariant (empty blobs both as nil and as empty slices), with extrinsics sorted, duplicated, adjacent-swapped, reversed, shuffled, "
          "naming unknown services and unknown blobs; compared: verdict, full posterior preimage and lookup maps of every service, remaining "
          "raw key-values, and that validation / integration did not alter their inputs. non-trivial = a defined non-error result; distinct by input",
     assumptions=[
         "host-call cases keep register 7 either 2^64-1 or below 2^32 (the ServiceID(uint64) truncation of the host calls belongs to C07)",
-        "stored preimages are non-nil byte slices (an empty stored preimage is `[]byte{}`)",
+        "proposed patch C31-historical-lookup-empty-preimage is needed for the cases whose stored preimage is the empty blob held as a nil slice "
+        "(token ~): without it those lookups are reported as violations",
     ],
     trusted_base=["the OCaml driver's Blake2b-256 (self-tested against the Go hash package at the start of the run) instantiates the hash "
                   "parameter of the model; lookup_state_key in the model re-derives merklization.EncodeDelta4Key"],
@@ -43,7 +44,8 @@ MANIFEST = dict(
          "The Go raw-key-value branch of ShouldIntegratePreimage does not consult the preimage map: equal to the specification only on states where a "
          "stored preimage never has an empty record (hypothesis `consistent`, satisfied by every state the node can reach; off-invariant states are "
          "generated too and compared against the implementation-shaped model only). Outside the model: gas charging and memory faults of the host calls "
-         "(C07), the service-id truncation of register 7, metadata decoding of fetched code.",
+         "(C07), the service-id truncation of register 7, metadata decoding of fetched code. One proposed patch: "
+         "C31-historical-lookup-empty-preimage (a stored, valid EMPTY preimage — nil after decoding — was returned as 'nothing').",
     technique="Coq proof of the case table, lookup/admission iff-characterisations and integration invariants by induction over the extrinsic + "
               "model/implementation correspondence (extracted OCaml vs Go, exhaustive boundary grid for I)",
     design_ref="DESIGN.md §4 C31",
